@@ -1,7 +1,21 @@
-//! Family dispatch. Each family module owns `gen(seed, tier) -> Vec<String>` and
-//! `run_line(&mut State, line) -> String`.
-pub mod loc;
+//! Family dispatch. Each family module owns `gen(seed, tier) -> Vec<String>` (case lines) and
+//! `run_line(&mut State, line) -> String` (the implementation's output line, starting with the case id).
 
+pub mod loc;
+pub mod binops;
+pub mod binser;
+pub mod parsers;
+pub mod text;
+pub mod lz;
+pub mod fs;
+pub mod pack;
+pub mod arc;
+pub mod aset;
+pub mod asset;
+pub mod pixel;
+pub mod texc;
+
+/// Per-run mutable state for stateful families (downcast to the family's own type).
 #[derive(Default)]
 pub struct State {
     pub any: Option<Box<dyn std::any::Any>>,
@@ -10,6 +24,18 @@ pub struct State {
 pub fn gen(family: &str, seed: u64, tier: &str) -> Vec<String> {
     match family {
         "loc" => loc::gen(seed, tier),
+        "binops" => binops::gen(seed, tier),
+        "binser" => binser::gen(seed, tier),
+        "parsers" => parsers::gen(seed, tier),
+        "text" => text::gen(seed, tier),
+        "lz" => lz::gen(seed, tier),
+        "fs" => fs::gen(seed, tier),
+        "pack" => pack::gen(seed, tier),
+        "arc" => arc::gen(seed, tier),
+        "aset" => aset::gen(seed, tier),
+        "asset" => asset::gen(seed, tier),
+        "pixel" => pixel::gen(seed, tier),
+        "texc" => texc::gen(seed, tier),
         _ => panic!("unknown family {}", family),
     }
 }
@@ -17,6 +43,18 @@ pub fn gen(family: &str, seed: u64, tier: &str) -> Vec<String> {
 pub fn run_line(family: &str, st: &mut State, line: &str) -> String {
     match family {
         "loc" => loc::run_line(st, line),
+        "binops" => binops::run_line(st, line),
+        "binser" => binser::run_line(st, line),
+        "parsers" => parsers::run_line(st, line),
+        "text" => text::run_line(st, line),
+        "lz" => lz::run_line(st, line),
+        "fs" => fs::run_line(st, line),
+        "pack" => pack::run_line(st, line),
+        "arc" => arc::run_line(st, line),
+        "aset" => aset::run_line(st, line),
+        "asset" => asset::run_line(st, line),
+        "pixel" => pixel::run_line(st, line),
+        "texc" => texc::run_line(st, line),
         _ => panic!("unknown family {}", family),
     }
 }
